@@ -828,7 +828,7 @@ def _decide_translation_sites(chk, F, rid, m, pans, plan, attrs):
             if cases is None:
                 chk.fail(rid, inst + "|unclassified", "%s turns a context error of the translation at %s into a panic (%s) and the "
                          "translator %s is not one whose key attributes this rule can compute" % (par, sp, pan[0][0].split("::")[-1], T),
-                         where=pan[0][1])
+                         where=pan[0][1], kind="unanalysable")
                 continue
             bad = []
             done = 0
